@@ -10,7 +10,7 @@ VARIANTS = [
     V("unpermuted-distance", O, "flows[i, j] * distances[xi, xj]",
       "flows[i, j] * distances[i, xj]", "fire", "D9.1"),
     V("inner-loop-short", O, "for j, xj in enumerate(x):",
-      "for j, xj in enumerate(x[1:]):", "fire", "D9.1"),
+      "for j, xj in enumerate(x[1:]):", "undecided", "D9.1"),
     V("swapped-wrapper-args", O,
       "return _evaluate(x, self.instance.distances, self.instance.flows)",
       "return _evaluate(x, self.instance.flows, self.instance.distances)",
